@@ -217,6 +217,7 @@ _COMB = {
     "core::result::Result::unwrap_or_else": ("Err", "Ok", "unwrap"),
     "core::option::Option::map": ("Some", "None", "wrap-some"),
     "core::option::Option::and_then": ("Some", "None", "value"),
+    "core::option::Option::is_some_and": ("Some", "None", "bool"),
 }
 
 
@@ -274,6 +275,8 @@ class Desugar:
                          "ctor": "Variant/Const", "last": "None", "sp": sp}
             other_val = {"k": "Path", "res": "def", "dk": "Ctor(Variant, Const)", "path": _ctor_path("None"),
                          "ctor": "Variant/Const", "last": "None", "ty": n.get("ty"), "sp": sp}
+            if mode == "bool":
+                other_val = {"k": "Lit", "lk": "bool", "v": False, "ty": "bool", "sp": sp}
         else:
             bid = self.fresh()
             other_pat = {"k": "PTupleStruct", "res": "def", "dk": "Ctor(Variant, Fn)", "path": _ctor_path(other),
